@@ -30,10 +30,10 @@ CHECKS = {
          "For every prefix length of every generated input a fresh rewriter given the prefix in one write is the reference: other schedules must have emitted exactly as much; with no handlers the pending bytes must fit R-latency (nothing after complete tokens or in text, '<'..name for an unfinished tag, short look-aheads), with handlers at most the single unfinished token.",
          "R-latency is derived from reading the tokenizer's look-ahead sequences; open finding C09-foreign-tags-buffered is limited to exactly the foreign tags that request a lexeme (integration-point start tags, <font>, MathML names without a hash).", "4/C09"),
  "C10": ("fault_enumeration", "property-based testing with a swept fault parameter (memory limit) and invariants over the sweep",
-         "Growth-targeted inputs x handler configurations x fixed preallocation x schedules, with the memory limit swept densely: result is Ok or MemoryLimitExceeded, accounted usage (hook) and retained bytes never exceed the limit after a successful call, success is monotone in the limit with identical output, the failing call is deterministic, and k open elements under a selector set are only accepted when the limit covers k times the per-element cost measured on the same configuration at 1 and 9 open elements (charging must stay linear).",
+         "Growth-targeted inputs x handler configurations x fixed preallocation x schedules, with the memory limit swept densely: result is Ok or MemoryLimitExceeded, accounted usage (hook) and retained bytes never exceed the limit after a successful call, success is monotone in the limit with identical output, the failing call is deterministic, and k open elements under a selector set are only accepted when the limit covers k times the per-element cost measured on the same configuration at 1 and 9 open elements (charging must stay linear); four heap families in a child process with a counting allocator bound memory the limiter does not see (40 000 distinct names under a 16 KiB limit: live heap growth <= limit + 192 KiB).",
          "Uses the _verif_hooks accessor; the tree-builder simulator's namespace stack is outside the limiter (DESIGN section 7).", "4/C10"),
  "C11": ("fault_enumeration", "property-based testing with exhaustive fault injection (every handler invocation index, memory-limit sweep) and a byte-conservation oracle",
-         "For every generated (input, schedule, observer/insert-only handler set, bail-out handlers, flags) every handler invocation fails once and the memory limit is swept; at the moment the error returns sink (sentinels removed) + unwritten input must equal the input, bail-out handlers run exactly once in order only for their flag's error kind, and nothing is flushed without the flag.",
+         "For every generated (input, schedule, observer/insert-only handler set, bail-out handlers, flags) every handler invocation and every streaming content writer fails once and the memory limit is swept; at the moment the error returns sink (sentinels removed) + unwritten input must equal the input, bail-out handlers run exactly once in order only for their flag's error kind, and nothing is flushed without the flag.",
          "Documented exceptions accepted only in their exact shape; open finding C11-decoder-held-bytes-lost classified by signature.", "4/C11"),
  "C12": ("fault_enumeration", "property-based testing over call histories with exhaustive fault injection and a sink-protocol monitor",
          "Histories write*;end with empty writes/documents, empty-string mutations, charset switching and injected faults at every handler index / memory limits: the ordered sink log must start with set_encoding, contain a zero-length chunk exactly once as the last call of a successful end(), receive nothing after an error, a poked rewriter must panic without output, and non-graceful failures leave a prefix of the complete output.",
